@@ -143,7 +143,7 @@ def _alarm_handler(signum, frame):  # pragma: no cover
     raise WallHang("wall-clock watchdog")
 
 
-RUN_WALL_S = int(os.environ.get("VERIF_RUN_WALL", "40"))
+RUN_WALL_S = int(os.environ.get("VERIF_RUN_WALL", "120"))
 
 
 def guarded_generate(mod, tape, tier):
